@@ -930,7 +930,7 @@ impl Database {
         let columns = table_def.columns().to_vec();
         let has_toast = table_def.has_toast();
 
-        let secondary_indexes: Vec<(String, Vec<usize>)> = table_def
+        let secondary_indexes: Vec<(String, Vec<usize>, bool)> = table_def
             .indexes()
             .iter()
             .filter(|idx| idx.index_type() == IndexType::BTree)
@@ -939,7 +939,7 @@ impl Database {
                     .columns()
                     .filter_map(|col_name| columns.iter().position(|c| c.name() == col_name))
                     .collect();
-                (idx.name().to_string(), col_indices)
+                (idx.name().to_string(), col_indices, idx.is_unique())
             })
             .collect();
 
@@ -1300,7 +1300,7 @@ impl Database {
 
         let needs_old_row_for_secondary_index = secondary_indexes
             .iter()
-            .any(|(_, col_indices)| col_indices.iter().any(|idx| modified_col_indices.contains(idx)));
+            .any(|(_, col_indices, _)| col_indices.iter().any(|idx| modified_col_indices.contains(idx)));
 
         let unique_col_indices: Vec<usize> = columns
             .iter()
@@ -1315,6 +1315,7 @@ impl Database {
 
         let can_onepass = pk_lookup_info.is_some()
             && unique_col_indices.is_empty()
+            && !needs_old_row_for_secondary_index
             && !has_toast
             && deferred_assignments.is_empty()
             && update.returning.is_none();
@@ -1584,8 +1585,8 @@ impl Database {
         drop(storage);
 
         if !unique_col_indices.is_empty() {
-            for (update_key, _old_value, updated_values, _old_row_values, _old_toast) in
-                &rows_to_update
+            for (pos, (update_key, _old_value, updated_values, _old_row_values, _old_toast)) in
+                rows_to_update.iter().enumerate()
             {
                 for &col_idx in &unique_col_indices {
                     let new_val = &updated_values[col_idx];
@@ -1594,6 +1595,19 @@ impl Database {
                     }
 
                     let col_name = columns[col_idx].name();
+
+                    // two rows of this statement must not receive the same value either
+                    if rows_to_update[..pos]
+                        .iter()
+                        .any(|(_, _, earlier, _, _)| &earlier[col_idx] == new_val)
+                    {
+                        bail!(
+                            "UNIQUE constraint violated on column '{}' in table '{}': value already exists",
+                            col_name,
+                            table_name
+                        );
+                    }
+
                     let index_name = if columns[col_idx].has_constraint(&Constraint::PrimaryKey) {
                         format!("{}_pkey", col_name)
                     } else {
@@ -1761,7 +1775,7 @@ impl Database {
 
                 let mut index_btree = BTree::new(&mut *index_storage, index_root_page)?;
 
-                for (_row_key, _old_value, new_row_values, old_row_values, _old_toast) in
+                for (row_key, _old_value, new_row_values, old_row_values, _old_toast) in
                     &rows_to_update
                 {
                     if let Some(old_value) = old_row_values.get(*col_idx) {
@@ -1776,23 +1790,19 @@ impl Database {
                         if !new_value.is_null() {
                             key_buf.clear();
                             Self::encode_value_as_key(new_value, &mut key_buf);
-                            if let Some(pk_idx) = columns
-                                .iter()
-                                .position(|c| c.has_constraint(&Constraint::PrimaryKey))
-                            {
-                                if let Some(OwnedValue::Int(pk_val)) = new_row_values.get(pk_idx) {
-                                    let row_id_bytes = (*pk_val as u64).to_be_bytes();
-                                    let _ = index_btree.insert(&key_buf, &row_id_bytes);
-                                }
-                            }
+                            let _ = index_btree.insert(&key_buf, row_key);
                         }
                     }
                 }
             }
         }
 
-        for (index_name, col_indices) in &secondary_indexes {
+        for (index_name, col_indices, is_unique) in &secondary_indexes {
             if col_indices.is_empty() {
+                continue;
+            }
+            // the per-column unique indexes were maintained above
+            if unique_columns.iter().any(|(_, name, _)| name == index_name) {
                 continue;
             }
             let any_modified = col_indices
@@ -1814,19 +1824,24 @@ impl Database {
 
                 let mut index_btree = BTree::new(&mut *index_storage, index_root_page)?;
 
-                for (_row_key, _old_value, new_row_values, old_row_values, _old_toast) in
+                for (row_key, _old_value, new_row_values, old_row_values, _old_toast) in
                     &rows_to_update
                 {
                     let old_all_non_null = col_indices
                         .iter()
                         .all(|&idx| old_row_values.get(idx).is_some_and(|v| !v.is_null()));
 
-                    if old_all_non_null {
+                    // the keys INSERT wrote: unique indexes hold rows without NULLs under the
+                    // bare column key, the others every row under column key ++ row id
+                    if old_all_non_null || !*is_unique {
                         key_buf.clear();
                         for &col_idx in col_indices {
                             if let Some(value) = old_row_values.get(col_idx) {
                                 Self::encode_value_as_key(value, &mut key_buf);
                             }
+                        }
+                        if !*is_unique {
+                            key_buf.extend_from_slice(row_key);
                         }
                         let _ = index_btree.delete(&key_buf);
                     }
@@ -1835,22 +1850,17 @@ impl Database {
                         .iter()
                         .all(|&idx| new_row_values.get(idx).is_some_and(|v| !v.is_null()));
 
-                    if new_all_non_null {
+                    if new_all_non_null || !*is_unique {
                         key_buf.clear();
                         for &col_idx in col_indices {
                             if let Some(value) = new_row_values.get(col_idx) {
                                 Self::encode_value_as_key(value, &mut key_buf);
                             }
                         }
-                        if let Some(pk_idx) = columns
-                            .iter()
-                            .position(|c| c.has_constraint(&Constraint::PrimaryKey))
-                        {
-                            if let Some(OwnedValue::Int(pk_val)) = new_row_values.get(pk_idx) {
-                                let row_id_bytes = (*pk_val as u64).to_be_bytes();
-                                let _ = index_btree.insert(&key_buf, &row_id_bytes);
-                            }
+                        if !*is_unique {
+                            key_buf.extend_from_slice(row_key);
                         }
+                        let _ = index_btree.insert(&key_buf, row_key);
                     }
                 }
             }
